@@ -3,9 +3,9 @@
 seeded changes into /verif/seeded/<TAG>/ and write /verif/seeded/README.md (which check catches which change)."""
 import json, os, re, shutil, sys
 ROOT = os.path.dirname(os.path.dirname(os.path.abspath(__file__)))
-SRC = {1: "/tmp/mut/{id}/seed", 2: "/tmp/mut2/wt_{id}/seed", 3: "/tmp/mut3/wt_{id}/seed", 4: "/tmp/mut4/wt_{id}/seed", 5: "/tmp/mut5/wt_{id}/seed"}
+SRC = {1: "/tmp/mut/{id}/seed", 2: "/tmp/mut2/wt_{id}/seed", 3: "/tmp/mut3/wt_{id}/seed", 4: "/tmp/mut4/wt_{id}/seed", 5: "/tmp/mut5/wt_{id}/seed", 6: "/tmp/mut6/wt_{id}/seed"}
 rows = []
-for rnd in (1, 2, 3, 4, 5):
+for rnd in (1, 2, 3, 4, 5, 6):
     for n in range(1, 17):
         pid = f"C{n:02d}"
         tag = f"{pid}r{rnd}"
